@@ -23,7 +23,9 @@ EXHAUSTIVE = {"quick": True, "thorough": True}
 SCHEMA = [Opt("i", "int", 0, 7), Opt("s", "str", 0, b"d"), Opt("b", "bool", 0, False), Opt("f", "float", 0, 1.5),
           Opt("l", "int", LIST, [b"1", b"2"]), Opt("e", "str", LIST, None), Opt("sl", "str", LIST, [b"x"]),
           Opt("fl", "float", LIST, [b"1.5"]), Opt("bl", "bool", LIST, None),
-          Opt("m", "sec", MULTI | TITLE, None, "-", [Opt("x", "int", 0, 3), Opt("xl", "int", LIST, [b"5"])]),
+          # decoys declared FIRST whose names merely begin with the names the calls use ("m", "one", "x"): a path step names a whole name
+          Opt("mx", "sec", MULTI | TITLE, None, "-", [Opt("x", "int", 0, 9)]), Opt("onex", "int", 0, 0), Opt("ones", "sec", 0, None, "-", [Opt("w", "int", 0, 8)]),
+          Opt("m", "sec", MULTI | TITLE, None, "-", [Opt("xx", "int", 0, 4), Opt("x", "int", 0, 3), Opt("xl", "int", LIST, [b"5"])]),
           Opt("u", "sec", MULTI | TITLE | NO_TITLE_DUPES, None, "-", [Opt("y", "str", 0, None)]),
           Opt("n", "sec", MULTI, None, "-", [Opt("z", "int", 0, 0)]),
           Opt("one", "sec", 0, None, "-", [Opt("w", "int", 0, 1), Opt("wl", "str", LIST, [b"a", b"b"])]),
